@@ -90,3 +90,14 @@ func (h *histRun) exec(c *vk.Ctx, i int, cfg *hist.Config, ids []string, ops []h
 		c.Sample(map[string]any{"profile": h.Profile.Name, "config": cfg, "slot_client_ids": ids, "first_ops": ops[:n], "total_ops": len(ops), "model_counters": res.Counts})
 	}
 }
+
+// directed runs one hand-written history through the same engine and classification.
+func (h *histRun) directed(c *vk.Ctx, name string, cfg *hist.Config, ids []string, ops []hist.Op) {
+	var w atomic.Int64
+	w.Store(100) // no trace re-run needed: ops are short and self-explanatory
+	saved := h.Profile
+	h.Profile = &hist.Profile{Name: "directed:" + name}
+	h.exec(c, 1000000+int(vk.Hash(name)%1000), cfg, ids, ops, &w)
+	h.Profile = saved
+	c.Count("directed_probes", 1)
+}
